@@ -19,6 +19,11 @@ GOOD_CLASSES = ["top", "aftval", "agg", "agg2"]
 NAMED_COMMENTS = {"plain": "/* c */", "empty": "/**/", "stars": "/* a * b / c */", "semicolon": "/*#9=X(1);*/",
                   "multiline": "/*\n multi\n line */", "delims": "/* ,) */", "quote": "/* it's */", "hash": "/* #3 */",
                   "data": "/* DATA; */", "endsec": "/* ENDSEC; */", "endiso": "/*END-ISO-10303-21;*/"}
+# explicit print control directives of Part 21 edition 1 (token separators for ReadTokenSeparator, i.e. in the gap class `top`):
+# followed by a blank, and - when ReadPcd no longer swallows the character behind the directive (decided from the
+# regenerated constant pcdEatsNextChar, i.e. from the source text) - directly followed by the next token
+PCD_SEPS = {"pcd-n": "\\N\\\n", "pcd-f": "\\F\\ ", "pcd-tight-n": "\\N\\", "pcd-tight-f": "\\F\\"}
+PCD_TIGHT = False
 
 
 # ------------------------------------------------------------------ generation
@@ -52,7 +57,7 @@ class Layout:
         rng = random.Random(self.seed)
         names = self.comments or list(NAMED_COMMENTS)
         old = W.COMMENTS
-        W.COMMENTS = [NAMED_COMMENTS[n] for n in names]
+        W.COMMENTS = [NAMED_COMMENTS[n] if n in NAMED_COMMENTS else PCD_SEPS[n] for n in names]
         old_ws, old_p = W.WS, W.P_COMMENT
         if not self.ws:
             W.WS = [""]
@@ -112,6 +117,11 @@ def gen_cases(ctx, lib, n, allowed_classes):
             lay, tag = Layout(rng.randrange(1 << 30), comment_classes=cc), "comments:" + "+".join(cc)
         lay.header = k % len(W.HEADERS) if k % 3 != 2 else 0
         cases.append(Case(lib, pop, lay, resp, tag))
+    # print control directives between tokens
+    for k in range(2):
+        pop = widen_strings(rng, lib.schema, W.gen_population(rng, lib.schema, rng.randint(3, 8)))
+        names = ["pcd-n", "pcd-f"] + (["pcd-tight-n", "pcd-tight-f"] if PCD_TIGHT else [])
+        cases.append(Case(lib, pop, Layout(rng.randrange(1 << 30), comment_classes=("top",), comments=names, every_gap=(k == 1)), False, "pcd:top"))
     return cases
 
 
@@ -432,6 +442,8 @@ def run(ctx):
     # integer-spelled elements of aggregates of NUMBER are generated when the source reads them with ReadNumber (decided
     # from the regenerated switch, i.e. from the source text)
     W.NUMBER_ELEM_INT = cfg.get("numberElemReadsNumber") == "1"
+    global PCD_TIGHT
+    PCD_TIGHT = cfg.get("pcdEatsNextChar") == "0"
     libs = R.build_libs(b, ctx.work, schemas_for(ctx, 3 if quick else 24))
     # corpus first
     cdir = os.path.join(VERIF, "corpus", "C01")
